@@ -13,7 +13,7 @@ static std::map<std::string, std::string> reference(const std::vector<Setting>& 
     std::set<std::string> explicit_current;
     for (auto& s : cfg) if (find(s.name)) explicit_current.insert(s.name);
     for (auto& s : cfg) { const std::string c = canon(s.name); const Opt* o = find(c); if (!o) continue; if (c != s.name && explicit_current.count(c)) continue; e[c] = image(*o, s.value); }
-    for (auto& s : cli) { const Opt* o = find(s.name); if (o) e[s.name] = image(*o, s.value); }
+    for (auto& s : cli) { const Opt* o = find(s.name); if (o) e[o->name] = image(*o, s.value); }
     // an alias and its current name both in the file (and the current name not on the command line): the statement leaves open which wins
     for (auto& a : ALIASES) { bool al = false, cu = false, oncli = false; for (auto& s : cfg) { if (s.name == a.alias) al = true; if (s.name == a.canonical) cu = true; }
         for (auto& s : cli) if (s.name == a.canonical) oncli = true; if (al && cu && !oncli) e.erase(a.canonical); }
@@ -63,6 +63,29 @@ int main(int argc, char** argv) {
         expect_ok(kase, "C20/precedence/pair", {{OPTS[i].name, OPTS[i].v2}}, {{OPTS[j].name, OPTS[j].v1}});
     }
     R.bound_done(T ? "all ordered pairs (one on the command line, one in the file)" : "every third ordered pair (one on the command line, one in the file)");
+    // one-letter names on the command line act like the long names (alone and against the long name in the file)
+    for (auto& sh : SHORTS) for (int v = 0; v < 2; v++) for (int pl = 0; pl < 2; pl++) {
+        const Opt* o = find(sh.canonical); const std::string val = v ? o->v2 : o->v1, other = v ? o->v1 : o->v2;
+        std::string kase = std::string("short ") + sh.sh + " v=" + std::to_string(v) + " placement=" + (pl ? "cli+cfg" : "cli");
+        if (!R.mine(kase)) continue;
+        expect_ok(kase, std::string("C20/short-name/") + (pl ? "cli-over-cfg" : "cli"), {{sh.sh, val}}, pl ? std::vector<Setting>{{sh.canonical, other}} : std::vector<Setting>{});
+    }
+    R.bound_done("every one-letter option name x 2 values x {cli, cli over cfg}");
+    // triples (thorough): every unordered triple of options, each on the command line or in the file in all 8 placements
+    if (T) {
+        for (size_t i = 0; i < NOPTS; i++) for (size_t j = i + 1; j < NOPTS; j++) for (size_t k = j + 1; k < NOPTS; k++) {
+            std::string base = std::string("triple ") + OPTS[i].name + "+" + OPTS[j].name + "+" + OPTS[k].name;
+            if (R.out_of_time()) { R.not_completed = base; goto done; }
+            for (int pl = 0; pl < 8; pl++) {
+                const std::string kase = base + " pl=" + std::to_string(pl);
+                if (!R.mine(kase)) continue;
+                std::vector<Setting> cli, cfg; const size_t ix[3] = {i, j, k};
+                for (int m = 0; m < 3; m++) ((pl >> m) & 1 ? cli : cfg).push_back({OPTS[ix[m]].name, (ix[m] + pl) % 2 ? OPTS[ix[m]].v1 : OPTS[ix[m]].v2});
+                expect_ok(kase, "C20/precedence/triple", cli, cfg);
+            }
+        }
+        R.bound_done("all unordered triples of options x 8 placements (command line / file)");
+    }
     // aliases: current name x {absent, cli, cfg, cli+cfg} x alias x {absent, cfg} (alias and current name both in the file: the current name wins)
     for (auto& al : ALIASES) for (int cur = 0; cur < 4; cur++) for (int ali = 0; ali < 2; ali++) for (int v = 0; v < 2; v++) {
         const Opt* o = find(al.canonical);
